@@ -19,9 +19,9 @@ ASSUMPTIONS = [
     'Base58Check obligations: change_base(.,58,256) / base58encode are an inverse pair of uninterpreted symbols (the decoded byte string is arbitrary); the checksum hash is uninterpreted and collision-free',
     'characters are arbitrary 8-bit code points',
 ]
-BOUNDS = {'quick': "bech32 decoder: every string 'bc1' + 11 or 14 arbitrary characters and every string of 8 arbitrary characters; encoder: every program of 20 and 32 bytes for witness versions 0, 1, 16 and every 2..4-byte program for versions 1..16, hrp bc/tb/ltc; Base58Check: every decoded byte string of 24..26 bytes",
+BOUNDS = {'quick': "bech32 decoder: every string 'bc1' + 11 or 14 arbitrary characters and every string of 8 arbitrary characters; encoder: every program of 20 and 32 bytes for witness versions 0, 1, 16 and every 2..4-byte program for versions 1..16, hrp bc/tb/ltc; Base58Check: every decoded byte string of 24..26 bytes; address-level decoders (deserialize_address, addr_base58_to_pubkeyhash) on strings whose canonical decoding has 23..26 bytes, including the digit layer's left padding; the WIF / extended-key envelopes of the C12 harness",
           'thorough': "decoder: 'bc1' + 11..14 characters, 'tb1' + 11, 9 fully arbitrary characters; encoder: all witness versions 0..16"}
-OUTSIDE = 'the base58 digit arithmetic itself (change_base digit loops fork on every character); bech32 strings longer than the bound with fully symbolic content; WIF / extended-key / BIP38 envelopes (see C12, C15)'
+OUTSIDE = 'the base58 digit arithmetic itself (change_base digit loops fork on every character); bech32 strings longer than the bound with fully symbolic content; BIP38 envelopes (see C15)'
 
 
 def _mods():
@@ -238,6 +238,65 @@ def h_base58check_addr(ex):
         ex.check(s_not(good), 'base58check-rejects-only-bad-strings')
 
 
+def h_base58_address_routes(ex, route):
+    """the address-level decoders (deserialize_address, Address.parse, addr_base58_to_pubkeyhash) on a Base58 string
+    whose canonical decoding is an arbitrary byte string of 23..26 bytes: accepted only if that decoding has exactly
+    25 bytes (version + 20 + checksum) with a correct checksum - a string with leading '1' characters missing or added,
+    or with a longer payload, is not an address; the payload reported is bytes 1..20"""
+    E, K = _mods()
+    ln = ex.choose('decoded_len', [23, 24, 25, 26])
+    dec = ex.bytes('decoded', ln)
+    H = _H['d'] if not ex.concrete else E.double_sha256
+    # the decoded bytes start with a documented base58 version byte of bitcoin (00 p2pkh / 05 p2sh) so that the network
+    # lookup does not decide the outcome
+    ex.assume(s_or(dec[0] == 0, dec[0] == 5))
+    if ex.concrete:
+        # the checksum hash is uninterpreted in the symbolic run: replay the model's bytes and the same bytes with the
+        # real checksum of the body the library will look at (with and without its left padding to 25 bytes)
+        d0 = bytes(dec)
+        variants = [d0, d0[:-4] + E.double_sha256(d0[:-4])[:4]]
+        if ln < 25:
+            variants.append(d0[:-4] + E.double_sha256(b'\x00' * (25 - ln) + d0[:-4])[:4])
+        for dv in variants:
+            _base58_route_obligations(ex, E, K, route, dv, len(dv), E.base58encode(dv), E.double_sha256)
+        return
+    else:
+        real_cb = _REALCB.setdefault('cb', E.change_base)
+
+        def cb(chars, f, t, min_length=0, *a, **k):
+            if chars == 'opaque-base58-string' and (f, t) == (58, 256):
+                # the inverse-pair abstraction of the digit layer, INCLUDING its documented left padding to min_length
+                pad = max(0, min_length - len(dec))
+                return (b'\x00' * pad + dec) if pad else dec
+            return real_cb(chars, f, t, min_length, *a, **k)
+        shims.install(E, change_base=cb, double_sha256=H)
+        shims.install(K, change_base=cb, double_sha256=H)
+        addr = 'opaque-base58-string'
+    _base58_route_obligations(ex, E, K, route, dec, ln, addr, H)
+
+
+def _base58_route_obligations(ex, E, K, route, dec, ln, addr, H):
+    try:
+        if route == 'deserialize_address':
+            out = K.deserialize_address(addr, encoding='base58')['public_key_hash_bytes']
+        elif route == 'Address.parse':
+            out = K.Address.parse(addr, encoding='base58').hash_bytes
+        else:
+            out = E.addr_base58_to_pubkeyhash(addr)
+        accepted = True
+    except (E.EncodingError, K.BKeyError, AssertionError):
+        accepted = False
+    good = (ln == 25) and (H(dec[:-4])[:4] == dec[-4:])
+    if accepted:
+        ex.check(good, 'base58-address-accepts-only-25-bytes-with-correct-checksum')
+        ex.check(len(out) == 20 and ln >= 21 and out == dec[1:21], 'base58-address-payload')
+    else:
+        ex.check(s_not(good), 'base58-address-rejects-only-bad-strings')
+
+
+_REALCB = {}
+
+
 def jobs(tier):
     q = tier == 'quick'
     J = [Job('polymod_step', h_polymod_step, W=48, setup=setup_step)]
@@ -249,6 +308,10 @@ def jobs(tier):
         J.append(Job('bech32_encode_%s' % hrp, h_bech32_encode, W=48, setup=setup, budget_s=3000,
                      params=dict(hrp=hrp, witvers=[0, 1, 16] if q else list(range(17)), lens=[2, 3, 4, 20, 32] if hrp == 'bc' else [20, 32])))
     J.append(Job('base58check_addr', h_base58check_addr, W=48, setup=setup))
+    for route in ('deserialize_address', 'addr_base58_to_pubkeyhash'):      # (Address.parse goes through deserialize_address)
+        J.append(Job('base58_address_%s' % route.replace('.', '_'), h_base58_address_routes, W=48, setup=setup, params=dict(route=route)))
+    from harness import c12                # the WIF / extended-key envelopes (C12 harness, checksum obligations)
+    J += [j for j in c12.jobs(tier) if j.name.startswith(('wif_import_', 'hd_import_init', 'hd_import_from_wif'))]
     for (wv, nd) in [(0, 32), (0, 52), (1, 52), (16, 4)]:
         J.append(Job('ref_checksum_lemma_v%d_%d' % (wv, nd), h_ref_checksum_lemma, W=48, setup=setup_step, params=dict(witver=wv, ndata=nd), budget_s=1500))
     return J
